@@ -1,5 +1,5 @@
 #!/bin/bash
-# usage: mutest.sh <property> <sed-expr> <file-relative-to-repo>   — applies a sed mutation in a scratch worktree and runs the check
+# usage: mutest.sh <property> <sed-expr> <file-relative-to-repo> [full]  — applies a sed mutation in a scratch worktree and runs the check
 set -e
 P=$1; EXPR=$2; F=$3
 WT=$(mktemp -d /tmp/govc-mut.XXXX)
@@ -7,5 +7,9 @@ git -C /repo worktree add -q --detach $WT HEAD
 sed -i "$EXPR" $WT/$F
 (cd $WT && git diff --stat | tail -1)
 (cd $WT/ociregistry && go build ./... ) || echo "MUTANT DOES NOT BUILD"
+if [ "$4" = full ]; then
+GOVC_REPO=$WT GOVC_CONTRACTS=mirror /verif/bin/govc check --property $P 2>&1 | sed "s#$WT#/repo#g" | grep -v "^  replay"
+else
 GOVC_REPO=$WT GOVC_CONTRACTS=mirror /verif/bin/govc check --property $P 2>&1 | grep -E "^(VIOLATION|FAILED|REGRESSED|govc:|  replay)" | sed "s#$WT#/repo#g" | head -12
+fi
 git -C /repo worktree remove --force $WT
